@@ -12,8 +12,7 @@ Lemma alloc_local_spec stack s : pow2_size s ->
   let a := alloc_local stack s in a + s <= stack /\ stack - 2 * s < a /\ a mod s = 0.
 Proof.
   intros Hs. unfold alloc_local.
-  assert (exists k, 0 <= k /\ s = 2 ^ k) as (k & Hk & ->).
-  { destruct Hs as [->|[->|[->| ->]]]; [exists 0|exists 1|exists 2|exists 3]; split; reflexivity || lia. }
+  destruct Hs as (k & Hk & ->).
   rewrite land_neg_pow2 by exact Hk. set (p := 2 ^ k). assert (0 < p) by (apply Z.pow_pos_nonneg; lia).
   pose proof (Z.div_mod (stack - p) p ltac:(lia)). pose proof (Z.mod_pos_bound (stack - p) p ltac:(lia)).
   cbv zeta. repeat split; try lia. rewrite Z.mul_comm. apply Z.mod_mul. lia.
@@ -28,8 +27,8 @@ Proof.
   specialize (IH (alloc_local stack s) H2). destruct (alloc_locals (alloc_local stack s) tl) as [rest st] eqn:E.
   cbn [fst snd] in *. destruct IH as [IH1 IH2]. split.
   - constructor; [cbn; lia|]. eapply Forall_impl; [|exact IH1]. intros r Hr. cbn beta in *.
-    assert (0 <= s) by (destruct H1 as [->|[->|[->| ->]]]; lia). lia.
-  - assert (0 <= s) by (destruct H1 as [->|[->|[->| ->]]]; lia). lia.
+    assert (0 <= s) by (destruct H1 as (k & Hk & ->); apply Z.pow_nonneg; lia). lia.
+  - assert (0 <= s) by (destruct H1 as (k & Hk & ->); apply Z.pow_nonneg; lia). lia.
 Qed.
 
 (* local variables of one program never overlap, for ANY list of declarations *)
